@@ -707,7 +707,18 @@ func c03PeerCloseClassification(c *core.Ctx) {
 		}
 	}
 	if hu := c.Fn(R, "engine.(*server).HandleUpgrade"); hu != nil {
+		cands := hu.AllUnits()
+		// the Upgrader's Error callback may be built by a novel private helper that returns the closure
 		for _, k := range hu.AllUnits() {
+			for _, cl := range k.Calls() {
+				if cl.Inlined == nil && cl.Callee != nil && c.P.IsTransparent(cl.Callee) {
+					if h := c.P.UnitOf(cl.Callee); h != nil {
+						cands = append(cands, h.AllUnits()...)
+					}
+				}
+			}
+		}
+		for _, k := range cands {
 			if k != hu && len(k.CallsTo(".IsUnexpectedCloseError", ".IsCloseError")) > 0 {
 				units = append(units, k)
 			}
